@@ -160,3 +160,29 @@ def run_one(mod, prop, seed, kind, index, tier):
     finally:
         monitor.deactivate_all()
     return ctx
+
+
+class local_timezone:
+    """Runs a block with the PROCESS in another local time zone (POSIX TZ rule string, no tz database needed):
+    nothing in the package may depend on it - naive timestamps are compared and subtracted as they are."""
+
+    def __init__(self, rule="EST5EDT,M3.2.0,M11.1.0"):
+        self.rule = rule
+
+    def __enter__(self):
+        import os
+        import time
+        self.old = os.environ.get("TZ")
+        os.environ["TZ"] = self.rule
+        time.tzset()
+        return self
+
+    def __exit__(self, *a):
+        import os
+        import time
+        if self.old is None:
+            os.environ.pop("TZ", None)
+        else:
+            os.environ["TZ"] = self.old
+        time.tzset()
+        return False
